@@ -9,15 +9,42 @@
 // library's own read function declares), and either reports an error or yields a value that the
 // library re-encodes without panic.
 //
-// MUTANT TABLE (tools/with_mutant.sh … -- ./run C10 quick; see the final report for details)
+// MUTANT TABLE (tools/with_mutant.sh -e <sed> <file> -- ./run C10 quick; seconds = wall time of the
+// whole sharded run on a machine loaded (load average 60-120) by other builders; the first
+// counterexample of a shard usually appears within its first few hundred cases)
 //
-//	filled in at the end of the build, see bottom of this comment block
+//	M01 Decoder.ReadBytes: "n > bytes left" check removed ...................... killed  35 s  (TestDecode: 16 MiB for 32 bytes / makeslice panic)
+//	M02 DecodeSlice: check removed and capacity n pre-allocated ................. killed  33 s  (TestDecode: allocation over budget)
+//	M03 V1Currency.DecodeFrom: "n > 16" check removed ........................... killed  43 s  (TestDecode: slice bounds panic)
+//	M04 SpendPolicy.DecodeFrom: maxPolicyDepth check removed .................... killed  52 s  (TestDeep: child dies of stack overflow at depth 2^20)
+//	M05 types.unmarshalHex: over-long input check removed ....................... killed  38 s  (TestText: hex.Decode index panic; TestKnown F6 probe)
+//	M06 rhp4 RPCFreeSectorsRequest: make([]uint64, d.ReadUint64()) .............. killed  51 s  (TestDecode: makeslice panic)
+//	M07 multiproof decode: "leaf index >= numLeaves" check removed .............. killed  60 s  (TestDecode: makeslice panic)
+//	M08 multiproof decode: bail-out on error before expandMultiproof removed .... killed  47 s  (TestDecode, proof-carrying seed: index [65] of [64]
+//	    trees) — survived the first version of the generator (58 s, green): mutating the library's own encodings never shows the decoder
+//	    elements that arrive WITH proofs; multiproof_seed_test.go now lays that wire form out by hand
+//	M09 gateway outline decode: kinds/count cross-check removed ................. killed  59 s  (TestDecode: slice bounds panic)
+//	M10 threshold policy: child count read as uint64 ............................ killed  29 s  (TestDecode: makeslice panic)
+//	M11 Decoder.Read keeps looping after an error (hang) ........................ killed 128 s  (CPU-time watchdog, run with VERIF_C10_HANG_CPU_S=20;
+//	    with the default 120 s budget the kill takes ~4 min)
+//	M12 V2FileContractResolution.DecodeFrom: unknown-type branch removed ........ killed  31 s  (TestDecode: nil interface conversion panic)
+//	M13 ElementAccumulator.UnmarshalJSON: tree count check != -> > .............. killed  29 s  (TestText: index panic)
+//	M14 StorageProof.UnmarshalJSON: leaf length check removed ................... killed  38 s  (TestText: hex.Decode index panic)
+//	M15 Address.UnmarshalText: length check removed ............................. killed  28 s  (TestText: hex.Decode index panic)
+//	M16 rhp2 RPCReadResponse: SectorSize bound removed (fix 85d8f3f reverted) ... killed  44 s  (TestKnown probe + TestDecode: slice bounds panic)
+//	M17 ApplyUpdate.UnmarshalJSON: height bound removed (fix c4ecb27 reverted) .. killed 110 s  (TestKnown probe + TestText)
+//	M18 ParseCurrency: exponent bound 3 -> 9 digits (fix b289292 weakened) ...... killed 124 s  (TestKnown probe + TestText: 2.2 GB for 15 bytes)
+//
+// Not mutated because the change does not violate the property: dropping the length check of DecodeSlice/DecodeSliceFn alone
+// (elements are appended one by one and the loop stops at the first error, so a hostile count costs nothing), > vs >= in
+// the "bytes left" comparisons (over-rejects an exact fit; C11's subject).
 package c10
 
 import (
 	"encoding/hex"
 	"encoding/json"
 	"fmt"
+	"os"
 	"reflect"
 	"strings"
 	"testing"
@@ -89,11 +116,20 @@ func drawDecode(t *rapid.T) DecodeCase {
 		reg = reg[only : only+1]
 	}
 	e := reg[uniform(t, len(reg))]
+	if name := os.Getenv("C10_ONLY_NAME"); name != "" && gen.Lookup(name) != nil {
+		e = gen.Lookup(name) // development aid: concentrate on one entry
+	}
 	enc, v, ok := seedEncoding(t, e)
 	if !ok {
 		enc = nil
 	}
 	m := &mut{t: t}
+	if e.Multiproof && e.Pkg == "types" && m.intn(3, "special") == 0 {
+		if sp, ok := specialSeed(t, e); ok {
+			enc = sp
+			m.note("proof-carrying-seed")
+		}
+	}
 	other := func() []byte {
 		o := e
 		if m.intn(3, "otherEntry") == 0 {
